@@ -183,6 +183,10 @@ func runKVV[K comparable, V any](p *Plan, st *RunStats, o *Oracle, d *Dom[K], mk
 					o.Fail("C11", "marshal-differs", "ToJSON %s differs from json.Marshal(container) %s", b, mb)
 					return
 				}
+				if disc != "hash" && string(b) != string(mb) {
+					o.Fail("C11", "marshal-differs-bytes", "ToJSON %s and json.Marshal(container) %s denote the same document but are not identical", b, mb)
+					return
+				}
 				if op.N == "Checkpoint" {
 					return
 				}
@@ -262,6 +266,11 @@ func genVals(r *Rng, tier string) *Plan {
 		shape = "struct"
 	}
 	cfg.Mode = "vals:" + shape
+	if r.P(1, 12) {
+		// the value containers over an element type with JSON methods on the pointer receiver
+		cfg.Mode = "vals:custom-marshalers"
+		return &Plan{World: "json-vals", Cfg: cfg, Ops: []Op{{ID: 0, N: "CustomMarshalers", A: []int{r.Intn(1 << 20)}}}}
+	}
 	p := &Plan{World: "json-vals", Cfg: cfg, Clients: []string{"writer", "snapshot-store"}}
 	n := []int{4, 8, 16, 30}[r.Intn(4)]
 	id := 0
@@ -289,6 +298,14 @@ func execVals(p *Plan, st *RunStats) *Violation {
 	start := stepCount
 	o := NewOracle("C11", "C11")
 	o.Kind = p.Cfg.Kind
+	if p.Cfg.Mode == "vals:custom-marshalers" {
+		if len(p.Ops) == 1 && len(p.Ops[0].A) == 1 {
+			safely(o, p.Ops[0], func() { o.cur = p.Ops[0]; customMarshalerProbe(o, p.Ops[0].A[0]) })
+			st.Ops, st.NonTrivial = 1, true
+		}
+		st.Steps = stepCount - start
+		return o.V
+	}
 	n := max(p.Cfg.Dom, 2)
 	curPool = p.Cfg.Pool
 	if p.Cfg.Elem == "string" {
